@@ -207,6 +207,19 @@ def run_unit(unit, tier):
         return res
     except (extract.ExtractError, LookupError) as e:
         res.undecided.append("extract: " + str(e))
+        fid = getattr(e, "fid", None)
+        if fid:
+            # the function / slice itself can no longer be extracted (an anchor statement is gone): its obligations, known
+            # from the committed baseline, are no longer discharged; report.py probes them on the real binary
+            try:
+                bp = json.load(open(os.path.join(VERIF, "baseline", "obligation_props.json"))).get(unit, {})
+            except (OSError, ValueError):
+                bp = {}
+            if bp:
+                res.map = {"functions": [], "lines": [], "ranges": {}, "lost_hints": []}
+                for oid, o in bp.items():
+                    res.obligations[oid] = {"props": o["props"], "fn": o["fn"], "line": 0, "text": o.get("text", "")}
+                res.rejected = [(fid, "extraction failed: " + str(e))]
         return res
     res.map = m
     json.dump(m, open(gen + ".map.json", "w"), indent=1)
